@@ -1123,3 +1123,23 @@ Proof.
     rewrite (fold_txns_count _ b cb _ _ _ _ Efold). unfold txns_postings. rewrite map_app, concat_app, cell_count_app.
     fold (txns_postings ts). rewrite (adjustments_other_accounts _ _ _ _ _ _ b cb Eadj (proj2 Hs) Hb HnAL HnI). lia.
 Qed.
+
+(* ------------------------------------------------------------ example data (Properties/C03.v) *)
+(* Assets:B buys 1.5 A on day 1 and 0.3 A on day 3; A is declared at 1.23456789 C on day 1,
+   2.00000001 C on day 2 and 3.33333333 C on day 4 (two price changes while the position is open,
+   day 3 carries the price of day 2 forward). *)
+Definition ex_v : commodity := [67%Z].
+Definition ex_c : commodity := [65%Z].
+Definition ex_a : account := [s_Assets; [66%Z]].
+Definition ex_o : account := [s_Equity; [69%Z]].
+Definition ex_buy (dt : Z) (q : dec) : txn := mkTxn dt [] (pair_build ex_o ex_a ex_c q dec_nil) None.
+Definition ex_days : list day :=
+  [ mkDay 1 [(ex_c, mkDec 123456789 (-8), ex_v)] [] [ex_buy 1 (mkDec 15 (-1))] [] [] None;
+    mkDay 2 [(ex_c, mkDec 200000001 (-8), ex_v)] [] [] [] [] None;
+    mkDay 3 [] [] [ex_buy 3 (mkDec 3 (-1))] [] [] None;
+    mkDay 4 [(ex_c, mkDec 333333333 (-8), ex_v)] [] [] [] [] None ].
+
+Lemma ex_days_in_ok : Forall posting_in_ok (days_postings ex_days).
+Proof.
+  repeat constructor; cbn; intros; try reflexivity; try discriminate.
+Qed.
